@@ -180,6 +180,7 @@ open Fcppt Fcppt.Gen
 
 """
     for t in ["i8", "i16"]:
+        lim = 1 << (BITS[t] - 1)
         o += f"""theorem ceil_div_signed_{t}_correct (a b : Int) (ha : IntTy.{t}.InRange a) (hb : IntTy.{t}.InRange b) (hnz : b ≠ 0)
     (hrep : ∀ q, IsCeilDiv a b q → IntTy.{t}.InRange q) :
     ∃ q, ceil_div_signed_{t} a b = .ok (some q) ∧ IsCeilDiv a b q := by
@@ -188,14 +189,23 @@ open Fcppt Fcppt.Gen
   refine ⟨_, ?_, hc⟩
   have hab : (Int.tdiv a b).natAbs ≤ a.natAbs := Int.natAbs_tdiv_le_natAbs a b
   have hr1 := tmod_abs_lt a b
+  have hr2 := tmod_sign a b
   clear hrep hc
   c06_ranges
+  generalize hqe : Int.tdiv a b = q at *
+  generalize hre : Int.tmod a b = r at *
+  have hq : -{lim} ≤ q ∧ q ≤ {lim} := by omega
+  have hr : -{lim} < r ∧ r < {lim} := by omega
+  clear hab hr1
+  -- the code is run with the linear bounds only (the facts about the result come back for the last step)
+  revert hin hr2
   gen_unfold_ceil_div_signed
   c06_wraps
-  simp only [CInt.div, CInt.mod]
-  generalize Int.tdiv a b = q at *
-  generalize Int.tmod a b = r at *
+  simp only [CInt.div, CInt.mod, hqe, hre]
+  simp only [hnz, ↓reduceIte, not_false_eq_true, decide_true, ne_eq, decide_not, Bool.not_false, Bool.not_true, decide_false]
   c06_exec
+  intro hin hr2
+  c06_norm
   c06_finish
 
 theorem ceil_div_signed_{t}_zero (a : Int) : ceil_div_signed_{t} a 0 = .ok none := by
@@ -314,8 +324,34 @@ open Fcppt Fcppt.Gen
     return o
 
 
+def enum2():
+    o = "import FcpptProofs.C06.Tactics\n" + HEAD + """/-!
+C06 — enum_::from_int for enums whose underlying type is signed (`int`, the default, and `signed char`): the size type is
+the unsigned counterpart, the enumerators are `0 … size-1` with `size ≤ max(underlying) + 1`.
+-/
+namespace Fcppt.C06
+open Fcppt Fcppt.Gen
+
+"""
+    for u in ["i8", "i32"]:
+        for v in UNS:
+            o += f"""theorem from_int_{u}_{v}_correct (value size : Int) (h : IntTy.{v}.InRange value) (hs : 0 ≤ size ∧ size ≤ IntTy.{u}.hi + 1) :
+    from_int_{u}_{v} value size = .ok (fromIntSpec size value) := by
+  gen_unfold_from_int
+  c06_norm
+  c06_finish
+
+"""
+    o += """/-- non-vacuity: the largest enum over `signed char` (128 enumerators) -/
+example : from_int_i8_u16 127 128 = .ok (some 127) ∧ from_int_i8_u16 128 128 = .ok none ∧ from_int_i8_u16 383 128 = .ok none := ⟨by rfl, by rfl, by rfl⟩
+
+end Fcppt.C06
+"""
+    return o
+
+
 def main():
-    for name, text in [("Casts", casts()), ("Div2", div2()), ("CeilNarrow", ceil_narrow()), ("Interval", interval()), ("Masks", masks())]:
+    for name, text in [("Enum2", enum2()), ("Casts", casts()), ("Div2", div2()), ("CeilNarrow", ceil_narrow()), ("Interval", interval()), ("Masks", masks())]:
         with open(os.path.join(OUT, name + ".lean"), "w") as f:
             f.write(text)
 
